@@ -44,6 +44,7 @@ Inductive case :=
 | mk_incr (base : name) (rounds : list round)
 | mk_case (mode : N)                       (* 0 full, 1 import, 2 since, 3 cut, 4 rpc, 5 export, 6 busy, 7 source fault, 8 source fault through the RPC *)
           (files : list sfile) (cache : kvs)
+          (retained : kvs) (retained_stem : name)   (* a snapshot the cache retained after a failed write ([] = none); the file name its flush gets *)
           (snap : N)                       (* the source's snapshotter: 0 idle, 1 busy for all attempts, 2 snapshot compactions disabled *)
           (next_stem base : name)
           (since exlo exhi cut total : Z)
@@ -195,9 +196,16 @@ Definition check_case (c : case) : N :=
   match c with
   | mk_incr base rounds => check_incr base rounds
   | mk_copyseq base attempts => check_copyseq base attempts
-  | mk_case mode files cache snap next_stem base since exlo exhi cut total src_fail src_fail_hdr during extra
+  | mk_case mode files cache retained retained_stem snap next_stem base since exlo exhi cut total src_fail src_fail_hdr during extra
             src_before src_after backup_err members archive_ok restore_err dst_ok dst dst_files advertised =>
-    let src0 := mk_shard files {| c_snap := []; c_hot := cache |} in
+    (* the state the source's requests see: files, retained snapshot, live cache *)
+    let src_seen := mk_shard files {| c_snap := retained; c_hot := cache |} in
+    (* Engine.flushCache: a retained snapshot is written out on its own before the backup's snapshot *)
+    let src0 := match retained with
+                | [] => mk_shard files {| c_snap := []; c_hot := cache |}
+                | _ => flush_retained retained_stem now_oracle src_seen
+                end in
+    let files := sh_files src0 in
     let cutk := if cut <? 0 then None else Some cut in
     let is_cut := ((0 <=? cut) && (cut <? total)) || (0 <=? src_fail) || N.eqb snap 2 in
     let sfail := if src_fail <? 0 then None else Some (Z.to_nat src_fail, src_fail_hdr) in
@@ -242,7 +250,7 @@ Definition check_case (c : case) : N :=
       end in
     let with_during := mk_shard files (cache_write {| c_snap := []; c_hot := cache |} during) in
     let agree :=
-      same_reads (shard_reads src0) src_before &&
+      same_reads (shard_reads src_seen) src_before && same_reads (shard_reads src0) src_before &&
       (predict src0 during || match during with [] => false | _ => predict with_during [] end) in
     (* -- the property, on the implementation's observation only -- *)
     let src_ok := source_preserved src_before src_after during in
